@@ -50,7 +50,18 @@ def with_directed_tail(st0, ops, seed):
 def eval_history(arg):
     """Runs one history; returns list of step records (only the interesting parts)."""
     seed, nmods, nsteps, configs, truly_cold_final = arg[:5]
-    st0, ops = arg[5] if len(arg) > 5 and arg[5] else with_directed_tail(*project.history(seed, nmods, nsteps), seed)
+    if len(arg) > 5 and arg[5]:
+        st0, ops = arg[5]
+    elif seed % 4 in (1, 2):
+        # half of the histories stay acyclic (start acyclic, edits that cannot close a cycle): there every difference counts
+        from vp.props.c10 import make_acyclic
+        from vp.props.c03 import history_from
+
+        st_init, _ = project.history(seed, nmods, 0)
+        st0 = make_acyclic(st_init)
+        st0, ops = with_directed_tail(st0, history_from(st0, seed, nsteps, "acyclic-batch"), seed)
+    else:
+        st0, ops = with_directed_tail(*project.history(seed, nmods, nsteps), seed)
     root = mypyrun.scratch("c02")
     caches = {c: mypyrun.scratch("c02cache-" + c) for c in configs}
     recs = []
@@ -63,6 +74,7 @@ def eval_history(arg):
             if step > 0:
                 project.apply_edit(st, ops[step - 1])
             files = project.render(st)
+            cyc = histrun.cyclic_files(st)
             changed = proj.sync(files, project.unlisted_paths(st))
             targets = proj.targets()
             # oracle: cold run
@@ -87,7 +99,13 @@ def eval_history(arg):
                     continue
                 d = histrun.compare(warm, cold)
                 if d:
-                    rec["problems"].append((c, d[0], d[1], d[2] if len(d) > 2 else []))
+                    klass = d[0]
+                    if len(d) > 3 and d[3] and set(d[3]) <= cyc:
+                        # every differing file lies on an import cycle: inside cycles the result depends on the order
+                        # in which the cycle's modules are processed, and that order differs between a warm run
+                        # (only stale modules re-processed) and a cold run (listed finding)
+                        klass = "in-cycle:" + klass
+                    rec["problems"].append((c, klass, d[1], d[2] if len(d) > 2 else []))
             if truly_cold_final and step == len(ops):
                 tc = histrun.run(root, targets, CONFIGS["sqlite-binary"], os.devnull)
                 d = histrun.compare(tc, cold)
@@ -120,6 +138,8 @@ def judge(run: Run, res, configs) -> None:
                 sg = "crash|" + (crash_signature(detail, "warm" if cfg != "cold" else "cold") or "unparsed")
             elif klass in ("same-line-order", "advisory-note-placement"):
                 sg = klass
+            elif klass.startswith("in-cycle:"):
+                sg = "in-cycle-order-dependence"
             else:
                 # in-process disagreement: reproduce with every run in a fresh process before believing it
                 key = (res["seed"], rec["step"], cfg)
